@@ -1,4 +1,5 @@
 """C14 - concurrent decisions and in-memory mutations are linearizable."""
+import collections
 import copy
 import logging
 
@@ -124,6 +125,11 @@ def cached_scenarios():
     mk('cached:decision|delete-allow', [pol('a')], lambda st: st.delete('a'))
     mk('cached:decision|add-deny', [pol('a')], lambda st: st.add(pol('c', 'deny')))
     mk('cached:decision|update-to-deny', [pol('a')], lambda st: st.update(pol('a', 'deny')))
+    # two mutations while one decision is in flight (an invalidation marker that wraps around would come back)
+    mk('cached:decision|update-to-deny,add-allow', [pol('a')],
+       lambda st: (st.update(pol('a', 'deny')), st.add(pol('b'))))
+    mk('cached:decision|add-deny,add-allow', [pol('a')],
+       lambda st: (st.add(pol('c', 'deny')), st.add(pol('b'))))
     return C
 
 
@@ -166,10 +172,10 @@ def run_one(name, initial, make, preemptions, line_mode=False, random_switch=Non
 def enumerate_schedules(name, initial, make, bound, limit, line_mode=False):
     """all schedules with at most `bound` preemptions at the instrumented yield points (DFS)"""
     seen = set()
-    stack = [()]
+    stack = collections.deque([()])       # breadth first: every schedule with fewer preemptions comes first
     out = []
     while stack and len(out) < limit:
-        pre = stack.pop()
+        pre = stack.popleft()
         if pre in seen:
             continue
         seen.add(pre)
